@@ -30,6 +30,13 @@ HD, WD, SELF = sym("ham_data"), sym("wave_data"), sym("self")
 
 
 def _report(ctx, eng: KindEngine, fi, what: str, min_sites: int):
+    if not eng.violations and eng.checked_sites < min_sites:
+        # fewer contractions could be typed than on the reference tree (operations without a transfer function): what
+        # could be typed unifies; the rest is not judged
+        ctx.rep.note(f"{fi.qualname}: only {eng.checked_sites} contraction sites could be typed ({min_sites} on the reference "
+                     f"tree); the untyped ones are not judged")
+        ctx.rep.count("kind_sites_untyped")
+        return
     ctx.ob("KIND-2", f"{fi.qualname}: contractions unify ({what})", not eng.violations and
            eng.checked_sites >= min_sites,
            "; ".join(f"{msg} at {show(t, maxdepth=2)[:60]}" for t, msg in eng.violations[:3]) or
@@ -56,14 +63,31 @@ def rotate_orbs(ctx):
     for s in (0, 1):
         v = strip_wrappers(getitem(h1n, const(s)))
         k = eng.k(v)
+        if k is None:
+            # written with operations the axis-kind interpreter has no transfer function for: no kind, no claim
+            ctx.rep.note(f"rotate_orbs: h1[{s}] = {show(v, maxdepth=3)[:80]} could not be typed; the basis-change rule does "
+                         f"not apply to it")
+            continue
         ctx.ob("KIND-2", f"rotate_orbs: h1[{s}] becomes C^T h1[{s}] C", k == ("O:new", "O:new") and any(
             x is getitem(getitem(HD, const("h1")), const(s)) for x in subterms(v)) and not any(
             x is getitem(getitem(HD, const("h1")), const(1 - s)) for x in subterms(v)),
             f"kind {k}; built from h1[{s}]" if k else f"cannot type {show(v, maxdepth=3)[:80]}", fi)
     kc = eng.k(chn)
-    ctx.ob("KIND-2", "rotate_orbs: every Cholesky matrix becomes C^T L C, flattened again", kc == ("G", "F:new"),
-           f"kind {kc}", fi)
+    if kc is None:
+        ctx.rep.note("rotate_orbs: the rotated Cholesky tensor could not be typed; the basis-change rule does not apply to it")
+    else:
+        ctx.ob("KIND-2", "rotate_orbs: every Cholesky matrix becomes C^T L C, flattened again", kc == ("G", "F:new"),
+               f"kind {kc}", fi)
     _report(ctx, eng, fi, "old-basis axes contract only with old-basis axes", 5)
+    # a congruence C^T X C, not a similarity C^-1 X C: the two coincide for orthogonal C only, and the index kinds cannot
+    # tell an inverse from a transpose (both map the new basis to the old one)
+    from ..symex import array_fn as _afn, call_parts as _cp
+    inverses = [x for x in subterms(R) if x.op == "call" and (_afn(x) or "") in ("linalg.inv", "linalg.pinv", "linalg.solve",
+                                                                                 "linalg.lstsq")
+                and any(y is sym("mo_coeff") for a_ in _cp(x)[1] for y in subterms(a_))]
+    ctx.ob("KIND-2", "rotate_orbs: the rotation matrix enters through C and C^T only (congruence, no inverse)", not inverses,
+           f"{show(inverses[0], maxdepth=2)[:60]} is applied: C^-1 X C equals C^T X C for orthogonal C only" if inverses
+           else "no inverse of mo_coeff", fi)
     # one rotation matrix only
     mats = {x.uid for x in subterms(R) if x.op == "sym" and x.args[0] not in ("ham_data", "self")}
     ctx.ob("KIND-2", "rotate_orbs: a single rotation matrix is applied on both sides", mats == {sym("mo_coeff").uid},
@@ -85,6 +109,9 @@ def builders(ctx):
         eng = KindEngine(ev, seeds, norb_terms=[norb], nocc_terms=nocc or {})
         for label, term, want in targets(e):
             k = eng.k(strip_wrappers(term))
+            if k is None:
+                ctx.rep.note(f"{cls}.{meth}: {label} could not be typed (an operation without a transfer function); not judged")
+                continue
             ctx.ob("KIND-2", f"{cls}.{meth}: {label} has kind {want}", k == want,
                    f"inferred {k}", e.fi)
         _report(ctx, eng, e.fi, "orbital axes contract with orbital axes", min_sites)
